@@ -215,13 +215,22 @@ fn eval_path_expr(
         expr::PathExpr::Path(filter, location) => {
             eval_filtered_loc_expr(filter, location, node.clone(), context)?.as_value()
         }
-        expr::PathExpr::Root => match node {
-            dom::XmlNode::Document(_) => vec![node].as_value(),
-            _ => vec![node.owner_document().unwrap().as_node()].as_value(),
-        },
+        expr::PathExpr::Root => vec![root(node)?].as_value(),
     };
 
     Ok(nodes)
+}
+
+/// The root of the tree that contains the node. (A namespace node does not know its
+/// document in this API: an absolute path from it is an error, not a panic.)
+fn root(node: dom::XmlNode) -> error::Result<dom::XmlNode> {
+    match node {
+        dom::XmlNode::Document(_) => Ok(node),
+        _ => node
+            .owner_document()
+            .map(|v| v.as_node())
+            .ok_or(error::Error::InvalidType),
+    }
 }
 
 fn eval_filter_expr(
@@ -282,10 +291,7 @@ fn eval_filtered_loc_expr(
                     .collect(),
             }
         } else {
-            let root = match node {
-                dom::XmlNode::Document(_) => node,
-                _ => node.owner_document().unwrap().as_node(),
-            };
+            let root = root(node)?;
             match op {
                 expr::LocationPathOperator::Current => vec![root],
                 expr::LocationPathOperator::DescendantOrSelfNode => descendant_and_self(root),
@@ -582,6 +588,15 @@ fn attributes(node: dom::XmlNode) -> Vec<dom::XmlNode> {
 fn child(node: dom::XmlNode) -> Vec<dom::XmlNode> {
     let mut nodes = vec![];
 
+    // In the XPath data model attribute (and namespace) nodes have no children; the text
+    // and reference nodes the DOM keeps below an attribute are its value.
+    if matches!(
+        node,
+        dom::XmlNode::Attribute(_) | dom::XmlNode::Namespace(_)
+    ) {
+        return nodes;
+    }
+
     for c in node.child_nodes().iter() {
         nodes.push(c.clone());
     }
@@ -592,7 +607,7 @@ fn child(node: dom::XmlNode) -> Vec<dom::XmlNode> {
 fn descendant(node: dom::XmlNode) -> Vec<dom::XmlNode> {
     let mut nodes = vec![];
 
-    for child in node.child_nodes().iter() {
+    for child in child(node) {
         nodes.push(child.clone());
 
         let mut desc = descendant(child);
